@@ -183,3 +183,30 @@ def abstract_writes(data):
     if err is not None or rest:
         out.append(('MALFORMED-OUTPUT', data.hex()))
     return out
+
+
+def deframe_strict(stream):
+    """Reference deframer with the per-type length rules of RFC 4271 6.1 (OPEN >= 29, UPDATE >= 23,
+    NOTIFICATION >= 21, KEEPALIVE == 19). Same return convention as deframe()."""
+    frames = []
+    pos = 0
+    n = len(stream)
+    while n - pos >= 19:
+        if stream[pos:pos + 16] != MARKER:
+            return frames, (1, b''), b''
+        length, t = struct.unpack('!HB', stream[pos + 16:pos + 19])
+        bad = length < 19 or length > 4096
+        if t == OPEN and length < 29 or t == UPDATE and length < 23 or t == NOTIFICATION and length < 21 \
+                or t == KEEPALIVE and length != 19:
+            bad = True
+        if bad:
+            return frames, (2, struct.pack('!H', length)), b''
+        if t not in KNOWN_TYPES:
+            if n - pos < length:
+                return frames, ('3-pending', bytes([t])), stream[pos:]
+            return frames, (3, bytes([t])), b''
+        if n - pos < length:
+            break
+        frames.append((t, stream[pos + 19:pos + length]))
+        pos += length
+    return frames, None, stream[pos:]
